@@ -132,6 +132,9 @@ CLOUDS = {
     "col3": [(0, 0), (1, 0), (2, 0), (0, 1)],
 }
 OFFSETS = [(0.0, 0.0, 0.0), (1.0, -2.0, 3.0)]
+# scale / translation axis for the point clouds (tolerances are relative to the cloud extent; a far
+# offset is only combined with unit scale so that coordinate rounding stays below the tolerances)
+CLOUD_FRAMES = [(1.0, o) for o in OFFSETS] + [(1.0, (1000.0, -2000.0, 3000.0)), (2.0**-10, (0.0, 0.0, 0.0)), (1024.0, (0.0, 0.0, 0.0))]
 
 
 def _orders(k):
@@ -213,11 +216,14 @@ def _maps(case, out: Outcome):
 
     # ---- clouds: compute_normal, plane matrix from points, planarity check on
     for cname, coef in CLOUDS.items():
-        for off in OFFSETS:
-            base = np.array(off)[:, None] + np.array([[a * u[i] + b * v[i] for (a, b) in coef] for i in range(3)])
+        for csc, off in CLOUD_FRAMES:
+            if csc != 1.0 and cname not in ("quad", "col3"):
+                continue
+            base = np.array(off)[:, None] + csc * np.array([[a * u[i] + b * v[i] for (a, b) in coef] for i in range(3)])
             for oi, order in enumerate(_orders(len(coef))):
                 pts = np.ascontiguousarray(base[:, order])
-                k = key("cloud", cname, off, oi)
+                k = key("cloud", cname, off, csc, oi)
+                pts0 = pts.copy()
                 diffs = pts[:, :, None] - pts[:, None, :]
                 scale = float(np.abs(diffs).max())
                 # compute_normal
@@ -230,7 +236,7 @@ def _maps(case, out: Outcome):
                         bad = "not a unit vector"
                     else:
                         dev = float(np.abs(np.einsum("i,ijk->jk", cn, diffs)).max())
-                        if dev > ORTH_TOL * scale * 10:
+                        if dev > ORTH_TOL * scale * 10 + 1e-13 * float(np.abs(pts).max()):
                             bad = f"not orthogonal to the point differences (max |n.(pi-pj)| = {dev:.3e})"
                     if bad:
                         out.violate("compute_normal: " + bad, points=pts, got=cn, true_normal_direction=n)
@@ -260,15 +266,18 @@ def _maps(case, out: Outcome):
                             ddev = float(np.abs(d_loc - d_org).max())
                             # in the near-reference band the rotation angle (not the rotation) is
                             # inexact: the plane is tilted by the measured arccos error
-                            ztol = MAP_TOL * scale if not cls.startswith("skipped") else 1e-6 * scale
+                            ztol = (MAP_TOL * scale if not cls.startswith("skipped") else 1e-6 * scale) + 1e-12 * float(np.abs(pts).max())
                             if zdev > ztol:
                                 out.violate("project_plane_matrix(points): mapped cloud is not in a plane of constant last coordinate",
                                             points=pts, R=R, deviation=zdev)
                                 cls = "VIOLATION"
-                            elif ddev > (ORTH_TOL if not cls.startswith("skipped") else 1e-9) * scale * 10:
+                            elif ddev > (ORTH_TOL if not cls.startswith("skipped") else 1e-9) * scale * 10 + 1e-13 * float(np.abs(pts).max()):
                                 out.violate("project_plane_matrix(points): in-plane distances not preserved", points=pts, R=R, deviation=ddev)
                                 cls = "VIOLATION"
                     out.ev("plane/cloud/" + ("given/" if given else "computed/") + cls, k)
+                if not np.array_equal(pts, pts0):
+                    out.violate("compute_normal / project_plane_matrix modified the point array", points=pts0, after=pts)
+                    out.ev("purity/VIOLATION", k)
 
     # ---- normal / tangent projection matrices
     try:
@@ -459,7 +468,10 @@ def _check_tnp(normals, out: Outcome, key, nums):
 
     dim, nv = normals.shape
     try:
-        tnp = TNP(normals.copy())
+        arg = normals.copy()
+        tnp = TNP(arg)
+        if not np.array_equal(arg, normals):
+            out.violate("TangentialNormalProjection modified the array of normals", normals=normals, after=arg)
         unit = normals / np.linalg.norm(normals, axis=0)
         bad = None
         if tnp.num_vecs != nv or tnp.dim != dim:
